@@ -50,6 +50,20 @@ class UpgradeFamily(ScenarioFamily):
             op["consume"]["upgrade_read_all"]["body"] = body_when
         if mode == "connect":
             op["target"] = b"a.test:%d" % port
+        rp = gen.mk_rng(seed, "c17post")
+        post = None
+        if mode == "101" and rp.random() < 0.3:
+            # an Upgrade request that carries a body; the server switches protocols as soon
+            # as it has the head (tunnel bytes in the same segments), and a later write of
+            # the body fails: what the server had sent by then must still be handed over
+            nb = [rp.randint(1, 300) for _ in range(rp.randint(2, 4))]
+            op["method"] = "POST"
+            op["body"] = {"len": sum(nb), "chunks": nb, "oneshot": True}
+            plan["early"] = True
+            plan.pop("interim", None)
+            op["consume"]["upgrade_read_all"]["writes"] = []
+            post = {"lead": b"".join(segs),
+                    "faults": [{"at": rp.randint(2, 4 + len(nb)), "kind": "write_error"}]}
         plan2 = {"status": 200, "reason": b"OK", "framing": "cl", "body_len": 3,
                  "headers": [[b"Content-Length", b"3"]], "header_lines": [b"Content-Length: 3"]}
         op2 = {"op": "request", "token": "t1", "url": f"{scheme}://a.test/t/t1", "resp": plan2}
@@ -58,17 +72,33 @@ class UpgradeFamily(ScenarioFamily):
         if mode == "101-in-tunnel":
             eps["px.test:8080"] = {"kind": "http_proxy"}
             pool["proxy"] = {"url": "http://px.test:8080"}
-        return {"seed": seed, "exec": "asyncio", "pool": pool,
-                "net": {"latency": r.choice(["zero", "small", "fixed"]),
-                        "seg": r.choice(["whole", "whole", "random", "segment", "evil", "byte"]),
-                        "endpoints": eps},
-                "callers": [{"ops": [op, op2]}], "epilogue": ["close_pool"],
-                "c17": {"data": data, "writes": b"".join(writes), "mode": mode}}
+        scn = {"seed": seed, "exec": "asyncio", "pool": pool,
+               "net": {"latency": r.choice(["zero", "small", "fixed"]),
+                       "seg": r.choice(["whole", "whole", "random", "segment", "evil", "byte"]),
+                       "endpoints": eps},
+               "callers": [{"ops": [op, op2]}], "epilogue": ["close_pool"],
+               "c17": {"data": data, "writes": b"".join(writes), "mode": mode}}
+        if post is not None:
+            scn["faults"] = post["faults"]
+            scn["c17"]["post_lead"] = post["lead"]
+            scn["c17"]["writes"] = b""
+        return scn
 
     def post(self, res, scn):
         w = res.world
         out = res.outcomes.get(("c0", 0), {})
         c = scn["c17"]
+        if "post_lead" in c and w.fault_sites:
+            # the injected write failure resets the connection: the exchange may fail, but
+            # once the caller holds the 101 response everything the server had sent before
+            # the reset is handed over, in order and unaltered
+            if out.get("status") == 101 and "net_reads" in out:
+                got = b"".join(out["net_reads"])
+                lead = c["post_lead"]
+                if not c["data"].startswith(got) or not got.startswith(lead):
+                    w.violate("C17", "handover-bytes-lost:after-write-failure",
+                              {"got": got[:60], "lead": lead[:60]})
+            return
         if out.get("exc") == "ReadTimeout" and "net_reads" in out:
             got = b"".join(out["net_reads"])
             w.violate("C17", "handover-bytes-lost", {"got": len(got), "expected": len(c["data"]),
@@ -89,7 +119,7 @@ class UpgradeFamily(ScenarioFamily):
                 w.violate("C17", "read-exceeds-max_bytes", {"len": len(d), "max_bytes": mb})
                 return
         sent = b"".join(e[4] for e in w.ledger.of("tunnel_c2s") if e[3] == 0)
-        if sent != c["writes"]:
+        if sent != c["writes"] and "post_lead" not in c:     # (there the request body follows the head)
             w.violate("C17", "writes-altered", {"sent": sent[:80], "expected": c["writes"][:80]})
             return
         # the upgraded wire never carries another request, and is closed with the response
